@@ -317,6 +317,10 @@ func (e *SpecEnv) field(base Val, name string) Val {
 				hv := vc.fieldVar(t, idx)
 				cur = Val{T: "(select " + vc.get(st, hv) + " " + cur.T + ")", Ty: ft}
 				vc.rangeFact(hv, cur.T)
+				// Go type invariant of the value read (slice shape, integer range)
+				if ti := vc.typeInv(cur.T, ft); ti != "true" {
+					vc.fact(cur.T, ti)
+				}
 			}
 		} else {
 			cur = Val{T: "(" + vc.fieldSel(t, idx) + " " + cur.T + ")", Ty: ft}
@@ -607,6 +611,41 @@ func (e *SpecEnv) call(x *ast.CallExpr) Val {
 				return e.fail("typeis: unknown type")
 			}
 			return Val{T: "(= (i.tag " + v.T + ") " + vc.typeID(t) + ")", Ty: boolT}
+		case "preserved":
+			// preserved(Type.field): the field keeps its value on every object that
+			// existed in the old state
+			sel, ok := x.Args[0].(*ast.SelectorExpr)
+			if !ok {
+				return e.fail("preserved(Type.field)")
+			}
+			tid, ok := sel.X.(*ast.Ident)
+			if !ok {
+				return e.fail("preserved(Type.field)")
+			}
+			pk := e.pkgPath
+			if pk == "" && e.pkg() != nil {
+				pk = e.pkg().Path()
+			}
+			st := vc.eng.lookupType(pk, tid.Name)
+			if st == nil {
+				return e.fail("preserved: unknown type %s (contract target changed)", tid.Name)
+			}
+			su, ok := st.Underlying().(*types.Struct)
+			if !ok {
+				return e.fail("preserved: %s is not a struct", tid.Name)
+			}
+			for k := 0; k < su.NumFields(); k++ {
+				if su.Field(k).Name() == sel.Sel.Name {
+					hv := vc.fieldVar(st, k)
+					cur, old := vc.get(e.cur, hv), vc.get(e.old, hv)
+					if cur == old {
+						return Val{T: "true", Ty: boolT}
+					}
+					bv := smtSym(vc.fresh("q_r"))
+					return Val{T: fmt.Sprintf("(forall ((%s Ref)) (! (=> (< (at %s) %s) (= (select %s %s) (select %s %s))) :pattern ((select %s %s))))", bv, bv, e.old.heap["CLK"], cur, bv, old, bv, cur, bv), Ty: boolT}
+				}
+			}
+			return e.fail("preserved: no field %s.%s (contract target changed)", tid.Name, sel.Sel.Name)
 		case "identical":
 			// bitwise identity (SMT equality), also for floats
 			a, b := e.materialize(e.eval(x.Args[0])), e.materialize(e.eval(x.Args[1]))
